@@ -181,6 +181,23 @@ def inputs(ctx, h, which, selfcheck=True):
     return out
 
 
+def value_texts(ctx, gen_path):
+    """value / key texts cut out of the generator's `k = <value>` documents (and their mutants)"""
+    pre = [107, 32, 61, 32]
+    out = []
+    seen = set()
+    for r in core.read_ndjson(gen_path):
+        t = r["text"]
+        if len(t) > 5 and t[:4] == pre and t[-1] == 10:
+            v = tuple(t[4:-1])
+            if v not in seen:
+                seen.add(v)
+                out.append({"id": r["id"] + "/value", "text": list(v)})
+    p = ctx.path("values.ndjson")
+    core.write_ndjson(p, out)
+    return p
+
+
 def classify_known(ctx, m):
     """Match a mismatch against the `known` entries of known_findings.json (narrow structural rules)."""
     for ent in ctx.known["findings"]:
